@@ -559,8 +559,8 @@ func checkTrunc(c truncCase) *vt.Fail {
 		if err != nil && fail == nil {
 			fail = vt.Failf("operation-error", "%s failed: %v", c.Writer, err)
 		}
-	case <-time.After(20 * time.Second):
-		rec.Infra("writer did not finish within 20 s after the read lock was released")
+	case <-time.After(90 * time.Second):
+		rec.Infra("writer did not finish within 90 s after the read lock was released")
 	}
 	return fail
 }
